@@ -331,8 +331,8 @@ pub(super) fn load_styles<R: Read + std::io::Seek>(
     let mut cell_xfs = Vec::new();
     let cell_xfs_nodes = style_sheet
         .children()
-        .filter(|n| n.has_tag_name("cellXfs"))
-        .collect::<Vec<Node>>()[0];
+        .find(|n| n.has_tag_name("cellXfs"))
+        .ok_or_else(|| XlsxError::Xml("Missing cellXfs in xl/styles.xml".to_string()))?;
     for xfs in cell_xfs_nodes.children() {
         // `xfId` is optional on a cellXfs <xf> (it references cellStyleXfs;
         // many Excel/LibreOffice files omit it). Default to 0 when absent.
